@@ -311,11 +311,14 @@ func (txn *Txn) Commit() {
 	}
 
 	newRoot := txn.rootTxn.commit()
+	verifPoint(txn.fox, vpBeforeStore)
 	txn.fox.tree.Store(newRoot)
+	verifPoint(txn.fox, vpAfterStore)
 
 	// Clear the txn
 	txn.rootTxn = nil
 	txn.fox.mu.Unlock()
+	verifPoint(txn.fox, vpUnlocked)
 }
 
 // Abort cancel the transaction. This is a noop for read transactions, already aborted or
@@ -333,8 +336,10 @@ func (txn *Txn) Abort() {
 	}
 
 	// Clear the txn
+	verifPoint(txn.fox, vpAbort)
 	txn.rootTxn = nil
 	txn.fox.mu.Unlock()
+	verifPoint(txn.fox, vpUnlocked)
 }
 
 // Snapshot returns a point in time snapshot of the current state of the transaction.
